@@ -422,6 +422,11 @@ Walk:
 
 						tree.ctx.Put(subCtx)
 
+						// An infix catch-all never captures a value starting with a slash (empty first segment).
+						if current.params[paramKeyCnt].end != -1 && path[startPath] == slashDelim {
+							break Walk
+						}
+
 						// We can record params here because it may be either an ending catch-all node (leaf=/foo/*{args}) with
 						// children, or we may have a tsr opportunity (leaf=/foo/*{args}/ with /foo/x/y/z path). Note that if
 						// there is no tsr opportunity, and skipped nodes > 0, we will truncate the params anyway.
